@@ -229,6 +229,57 @@ Proof.
   destruct (step s o) as [s1 o1]. cbn [fst] in *. destruct (run s1 r) as [s2 o2]. exact IH.
 Qed.
 
+(* ---- the invariant does not depend on DryRun being on: it is preserved by every non-stress operation,
+   so the theorems above apply from any state reached by a history in which DryRun was off, then switched
+   on by a reload ---- *)
+Lemma decide_all_store l : forall s,
+  (forall t, In t (dropped s) -> d_keep (dec t) = false) ->
+  (forall t r, alookup t (kept s) = Some r -> d_keep (dec t) = true) ->
+  (forall t, In t (dropped (fst (decide_all s l))) -> d_keep (dec t) = false) /\
+  (forall t r, alookup t (kept (fst (decide_all s l))) = Some r -> d_keep (dec t) = true).
+Proof.
+  induction l as [|[tid tr] rest IH]; intros s Hd Hk; cbn [Rates.decide_all]; [split; assumption|].
+  pose proof (decide_one_store s tid tr) as [Hd1 Hk1].
+  destruct (decide_one s tid tr) as [s1 o1]. cbn [fst] in Hd1, Hk1.
+  assert (Hd1' : forall t, In t (dropped s1) -> d_keep (dec t) = false).
+  { intros t Hin. destruct (Hd1 t Hin) as [H|[-> H]]; [apply Hd; exact H|exact H]. }
+  assert (Hk1' : forall t r, alookup t (kept s1) = Some r -> d_keep (dec t) = true).
+  { intros t r Hin. destruct (Hk1 t r Hin) as [H|[-> H]]; [apply (Hk t r); exact H|exact H]. }
+  specialize (IH s1 Hd1' Hk1'). destruct (decide_all s1 rest) as [s2 o2]. cbn [fst] in *. exact IH.
+Qed.
+
+Theorem step_inv5_any s o : inv5 s -> is_stress o = false -> inv5 (fst (step s o)).
+Proof.
+  intros (Hnd & Htid & Hd & Hk) Hns. destruct o as [sp|sp| |c]; [| discriminate | |]; cbn [Rates.step].
+  - destruct (alookup (s_tid sp) (buf s)) as [tr|] eqn:L.
+    + cbn [fst]. split; [apply (NoDup_akeys_aset _ _ _ Hnd)|]. split; [|split; [exact Hd|exact Hk]].
+      cbn [buf]. intros tid tr' Hin. apply In_aset_buf in Hin. destruct Hin as [[-> ->]|Hin]; [|apply Htid; exact Hin].
+      cbn [t_spans]. apply Forall_app. split; [apply Htid; apply alookup_In; exact L|]. constructor; [reflexivity|constructor].
+    + unfold check_span. destruct (mem_N (s_tid sp) (dropped s)) eqn:Hm.
+      * cbn [fst]. split; [exact Hnd|]. split; [exact Htid|]. split; [exact Hd|exact Hk].
+      * destruct (alookup (s_tid sp) (kept s)) as [r|] eqn:Lk; cbn [fst].
+        -- split; [exact Hnd|]. split; [exact Htid|]. split; [exact Hd|].
+           cbn [kept]. intros tid r0. destruct (N.eq_dec tid (s_tid sp)) as [->|Hne].
+           ++ intros _. apply (Hk _ _ Lk).
+           ++ rewrite alookup_aset_neq by exact Hne. apply Hk.
+        -- split; [apply (NoDup_akeys_aset _ _ _ Hnd)|]. split; [|split; [exact Hd|exact Hk]].
+           cbn [buf]. intros tid tr' Hin. apply In_aset_buf in Hin. destruct Hin as [[-> ->]|Hin]; [|apply Htid; exact Hin].
+           cbn [t_spans]. constructor; [reflexivity|constructor].
+  - pose proof (decide_all_store (buf s) s Hd Hk) as [Hd1 Hk1].
+    destruct (decide_all s (buf s)) as [s1 o1]. cbn [fst] in *.
+    split; [constructor|]. split; [intros tid tr []|]. split; [exact Hd1|exact Hk1].
+  - cbn [fst]. split; [exact Hnd|]. split; [exact Htid|]. split; [exact Hd|exact Hk].
+Qed.
+
+Theorem run_inv5_any ops : forall s,
+  inv5 s -> forallb (fun o => negb (is_stress o)) ops = true -> inv5 (fst (run s ops)).
+Proof.
+  induction ops as [|o r IH]; intros s Hinv Hh; cbn [Rates.run]; [exact Hinv|].
+  cbn [forallb] in Hh. apply andb_true_iff in Hh. destruct Hh as [Ho Hr]. apply negb_true_iff in Ho.
+  pose proof (step_inv5_any s o Hinv Ho) as H1. destruct (step s o) as [s1 o1]. cbn [fst] in H1.
+  specialize (IH s1 H1 Hr). destruct (run s1 r) as [s2 o2]. exact IH.
+Qed.
+
 (* stress relief ignores dry run: a stress span is forwarded iff the decision on record (or, without one,
    the stress decision) is keep; it never enters the buffer and carries no dry-run marker *)
 Theorem stress_ignores_dry_run s sp :
